@@ -114,7 +114,7 @@ func verifC12Case(line string) (out string) {
 			order = append(order, host2uuid[h])
 		}
 		return verifC12Join(order)
-	case "roots":
+	case "roots", "rootseq":
 		if len(f) != 4 {
 			return "bad-op"
 		}
@@ -132,16 +132,46 @@ func verifC12Case(line string) (out string) {
 		}
 		kc := &KeepClient{Arvados: &arvadosclient.ArvadosClient{ApiToken: "tok"}}
 		kc.SetServiceRoots(locals, locals, gws)
-		got := kc.getSortedRoots(f[1])
-		nh := len(got) - len(locals)
-		if nh < 0 {
-			return "short " + verifC12Join(got)
+		nlocals := len(locals)
+		// rootseq: several calls on the SAME client (the order must not depend on earlier calls)
+		var outs []string
+		for _, loc := range strings.Split(f[1], ";") {
+			got := kc.getSortedRoots(loc)
+			// the hint roots are whatever precedes the last nlocals entries; if fewer than
+			// nlocals local roots come back, report what the hints alone would give
+			nh := 0
+			for _, hint := range strings.Split(loc, "+") {
+				if len(hint) == 7 && hint[0:2] == "K@" {
+					nh++
+				} else if len(hint) == 29 && hint[0:2] == "K@" {
+					if _, ok := gws[hint[2:]]; ok {
+						nh++
+					}
+				}
+			}
+			if nh > len(got) || len(got)-nh != nlocals {
+				nh = len(got) - nlocals
+				if nh < 0 {
+					// fewer roots than local services: print everything as the order part
+					var order []string
+					for _, r := range got {
+						if u, ok := root2uuid[r]; ok {
+							order = append(order, u)
+						} else {
+							order = append(order, r)
+						}
+					}
+					outs = append(outs, "?;"+verifC12Join(order))
+					continue
+				}
+			}
+			var order []string
+			for _, r := range got[nh:] {
+				order = append(order, root2uuid[r])
+			}
+			outs = append(outs, verifC12Join(got[:nh])+";"+verifC12Join(order))
 		}
-		var order []string
-		for _, r := range got[nh:] {
-			order = append(order, root2uuid[r])
-		}
-		return verifC12Join(got[:nh]) + ";" + verifC12Join(order)
+		return strings.Join(outs, " / ")
 	}
 	return "bad-op"
 }
